@@ -5,7 +5,7 @@ from .common import *   # noqa: F401,F403
 from . import linegen as lg
 
 LEAF = ['Leaf_chart', 'Leaf_fromfile']      # translated functions this property's model relies on (Tie/<name>.v)
-RULE = ("[Song] bodies given to Metadata.from_chart_lines (and, for a third of those that can stand in a file, also as the [Song] section of a whole chart through Chart.from_file): every singleton and all-but-one subset of the 23 optional fields (thorough) and random subsets, random permutations of the lines, "
+RULE = ("[Song] bodies given to Metadata.from_chart_lines (and, for a good third of those that can stand in a file, also as the [Song] section of a whole chart through Chart.from_file, or written as a UTF-8 file and read by Chart.from_filepath): every singleton and all-but-one subset of the 23 optional fields (thorough) and random subsets, random permutations of the lines, "
         "string values containing quotes, '=', ' = ', other fields' names and whole other fields' lines, leading/trailing blanks inside the quotes, non-ASCII; integers of 1-19 digits "
         "(beyond 2^53), quoted and unquoted, non-ASCII decimal digits; Player2 bass/rhythm/other; unknown fields; duplicate fields; missing Resolution; judged against the documented "
         "configuration (reference recognisers, documented kinds and defaults) evaluated inside Coq. Non-trivial: >= 2 fields present or a value with a quote/'='/field name or a default taken; distinct by lines")
@@ -89,9 +89,18 @@ def via_chart_ok(lines):
 
 def make_case(lines, via_chart=False):
     import io
+    import tempfile
     import chartparse.metadata as M
     import chartparse.chart as C
-    if via_chart:
+    if via_chart == "path":
+        # ... and as a UTF-8 FILE read by Chart.from_filepath (non-ASCII values must come back verbatim)
+        text = chart_text(res=None, song=lines, indent="")
+        with tempfile.TemporaryDirectory() as td:
+            p = os.path.join(td, "c.chart")
+            with open(p, "wb") as f:
+                f.write(text.encode("utf-8"))
+            out = pyval.r_result(lambda: C.Chart.from_filepath(p).metadata, pyval.r_metadata)
+    elif via_chart:
         # the same lines as the body of [Song] in a whole chart: the glue between the file and the [Song] parser must hand them on verbatim
         text = chart_text(res=None, song=lines, indent="")
         out = pyval.r_result(lambda: C.Chart.from_file(io.StringIO(text, newline="")).metadata, pyval.r_metadata)
@@ -100,7 +109,7 @@ def make_case(lines, via_chart=False):
     nfields = sum(1 for l in lines if " = " in l)
     return dict(case=dict(lines=lines, via_chart=via_chart), in_term=coq_list(coq_str(l) for l in lines), out_term=out,
                 nontrivial=nfields >= 2 or any('"' in l[l.find("=") + 3:-1] for l in lines if "=" in l),
-                tags=["fields=%d" % min(nfields, 8), "accepted" if out.startswith("(Ok") else "error", "via_chart" if via_chart else "direct"],
+                tags=["fields=%d" % min(nfields, 8), "accepted" if out.startswith("(Ok") else "error", ("via_" + ("path" if via_chart == "path" else "chart")) if via_chart else "direct"],
                 signature="C10:" + key_of([lines, via_chart]))
 
 
@@ -130,7 +139,7 @@ def cases(ctx, n):
         k = rng.choice([0, 1, 2, 3, 5, 8, 23])
         fields = rng.sample(ALL_OPT, k)
         lines = gen_lines(rng, fields, with_res=rng.random() < 0.9)
-        out.append(make_case(lines, via_chart=rng.random() < 0.35 and via_chart_ok(lines)))
+        out.append(make_case(lines, via_chart=(rng.choice([True, True, "path"]) if rng.random() < 0.4 and via_chart_ok(lines) else False)))
     return out
 
 
